@@ -313,15 +313,7 @@ func (a Int) Mul(b Int) Int {
 // String is the canonical rendering: runs of input bits, constant bits, unknown bits, high to low.
 func (a Int) String() string {
 	if a.Sym != "" {
-		allU := true
-		for _, b := range a.B {
-			if b.K != Unknown {
-				allU = false
-			}
-		}
-		if allU {
-			return a.Sym
-		}
+		return a.Sym
 	}
 	if v, ok := a.IsConst(); ok {
 		return fmt.Sprintf("%d", v)
@@ -595,8 +587,115 @@ func Str(v Val) string {
 type Write struct {
 	Dst   Slice  // destination bytes [Lo,Hi) of Dst.Src
 	Val   string // canonical value (for single bytes / integers) or source slice for copies
+	V     Val    // the value written (Int for byte/be/le writes, Slice/Addr for copies)
+	Kind  string // "byte", "be", "le", "copy"
 	Width int    // bytes (0 = variable)
 	Pos   token.Pos
+}
+
+// Image applies the writes in order to a byte map of buffer src: offset -> 8-bit value.
+// Writes at non-constant offsets, or copies of unknown extent, poison the offsets they may touch
+// (recorded as Unknown bytes from their start to `limit`).
+func Image(ws []Write, src string, limit int) map[int]Int {
+	img := map[int]Int{}
+	poison := func(from int, why string) {
+		for k := from; k < limit; k++ {
+			u := UnknownInt(why)
+			img[k] = u
+		}
+	}
+	for wi, w := range ws {
+		if w.Dst.Src != src {
+			continue
+		}
+		lo, ok := w.Dst.Lo.IsConst()
+		if !ok {
+			// a write at a symbolic offset may touch everything from its lower bound on
+			poison(int(w.Dst.Lo.lower()), "write at "+w.Dst.Lo.String())
+			continue
+		}
+		switch w.Kind {
+		case "poison":
+			hi := limit
+			if h, ok := w.Dst.Hi.IsConst(); ok && !w.Dst.HiLen && int(h) < hi {
+				hi = int(h)
+			}
+			for k := int(lo); k < hi; k++ {
+				img[k] = UnknownInt(w.Val)
+			}
+		case "byte":
+			if v, ok := w.V.(Int); ok {
+				img[int(lo)] = v.Trunc(8)
+			} else {
+				img[int(lo)] = UnknownInt(Str(w.V))
+			}
+		case "be", "le":
+			v, ok := w.V.(Int)
+			for k := 0; k < w.Width; k++ {
+				if !ok {
+					img[int(lo)+k] = UnknownInt(Str(w.V))
+					continue
+				}
+				sh := uint(8 * (w.Width - 1 - k))
+				if w.Kind == "le" {
+					sh = uint(8 * k)
+				}
+				if v.Sym != "" {
+					img[int(lo)+k] = UnknownInt(fmt.Sprintf("byte%d(%s)", sh/8, v.Sym))
+				} else {
+					img[int(lo)+k] = v.Shr(sh).Trunc(8)
+				}
+			}
+		case "copy":
+			// extent: the destination window when constant, else up to limit
+			n := limit - int(lo)
+			if hi, ok := w.Dst.Hi.IsConst(); ok && !w.Dst.HiLen {
+				n = int(hi - lo)
+			}
+			var from Slice
+			okSrc := false
+			switch t := w.V.(type) {
+			case Slice:
+				from, okSrc = t, !t.Nil
+			case Addr:
+				from, okSrc = t.From, true
+			}
+			slo, sok := from.Lo.IsConst()
+			if !okSrc || !sok {
+				for k := 0; k < n; k++ {
+					img[int(lo)+k] = UnknownInt("copy of " + Str(w.V))
+				}
+				continue
+			}
+			// the source may be shorter than the window: only its bytes are copied
+			if shi, ok := from.Hi.IsConst(); ok && !from.HiLen && int(shi-slo) < n {
+				n = int(shi - slo)
+			}
+			var simg map[int]Int
+			if from.Fresh {
+				simg = Image(ws[:wi], from.Src, limit)
+			}
+			for k := 0; k < n; k++ {
+				if from.Fresh {
+					if by, ok := simg[int(slo)+k]; ok {
+						img[int(lo)+k] = by
+					} else {
+						img[int(lo)+k] = ConstInt(0) // fresh memory is zeroed
+					}
+				} else {
+					img[int(lo)+k] = Byte(srcOr(from.Src, "p"), int(slo)+k)
+				}
+			}
+		}
+	}
+	return img
+}
+
+func srcOr(s, d string) string {
+	if s == "" {
+		return d
+	}
+	return s
 }
 
 type Ret struct {
@@ -604,6 +703,153 @@ type Ret struct {
 	Path   string
 	Writes []Write
 	Panic  bool
+	Loop   bool // the path was cut at a loop; Writes ends with the loop's write summary
+}
+
+// loopSummary over-approximates what the loop with header h may write: every store / copy / put
+// inside the loop poisons its destination slice from the lowest offset it can have — the initial
+// value of a monotonically increasing index (φ = init | φ + positive constant), else the slice start.
+func (e *Eval) loopSummary(f *frame, h *ssa.BasicBlock) []Write {
+	fn := h.Parent()
+	inLoop := map[*ssa.BasicBlock]bool{}
+	// blocks dominated by h that can reach h
+	var reach func(b *ssa.BasicBlock, seen map[*ssa.BasicBlock]bool) bool
+	reach = func(b *ssa.BasicBlock, seen map[*ssa.BasicBlock]bool) bool {
+		if b == h {
+			return true
+		}
+		if seen[b] {
+			return false
+		}
+		seen[b] = true
+		for _, s := range b.Succs {
+			if reach(s, seen) {
+				return true
+			}
+		}
+		return false
+	}
+	for _, b := range fn.Blocks {
+		if h.Dominates(b) {
+			for _, s := range b.Succs {
+				if reach(s, map[*ssa.BasicBlock]bool{}) {
+					inLoop[b] = true
+				}
+			}
+		}
+	}
+	inLoop[h] = true
+	lowerOfIdx := func(idx ssa.Value) Int {
+		if k, ok := idx.(*ssa.Const); ok {
+			if v, ok := e.val(f, k).(Int); ok {
+				return v
+			}
+		}
+		if phi, ok := idx.(*ssa.Phi); ok && inLoop[phi.Block()] {
+			var init Int
+			haveInit, mono := false, true
+			for i, ed := range phi.Edges {
+				if !inLoop[phi.Block().Preds[i]] {
+					if v, ok := e.val(f, ed).(Int); ok {
+						init, haveInit = v, true
+					} else {
+						mono = false
+					}
+					continue
+				}
+				bo, ok := ed.(*ssa.BinOp)
+				if !ok || bo.Op != token.ADD || bo.X != ssa.Value(phi) {
+					mono = false
+					continue
+				}
+				k, ok := bo.Y.(*ssa.Const)
+				if !ok || k.Int64() <= 0 {
+					mono = false
+				}
+			}
+			if haveInit && mono {
+				return ConstInt(init.lower())
+			}
+		}
+		return ConstInt(0)
+	}
+	var out []Write
+	poisonSlice := func(v ssa.Value, idx ssa.Value, pos token.Pos) {
+		var base Slice
+		switch t := e.val(f, v).(type) {
+		case Slice:
+			base = t
+		case Ptr:
+			switch {
+			case t.Arr != nil:
+				base = *t.Arr
+			case t.Local != nil:
+				if b, ok := f.locals[t.Local].(Slice); ok {
+					base = b
+				} else {
+					return
+				}
+			default:
+				return
+			}
+		default:
+			// the slice value is defined inside the loop and was not evaluated: unknown destination
+			return
+		}
+		d := base
+		if idx != nil {
+			d.Lo = base.Lo.Add(lowerOfIdx(idx))
+		}
+		out = append(out, Write{Dst: d, Val: "written in a loop", Kind: "poison", Pos: pos})
+	}
+	unknownDst := false
+	for b := range inLoop {
+		for _, ins := range b.Instrs {
+			switch t := ins.(type) {
+			case *ssa.Store:
+				if ia, ok := t.Addr.(*ssa.IndexAddr); ok {
+					if _, evaluated := f.env[ia.X]; evaluated || isParamOrConst(ia.X) {
+						poisonSlice(ia.X, ia.Index, t.Pos())
+					} else {
+						unknownDst = true
+					}
+				}
+			case *ssa.Call:
+				if bi, ok := t.Call.Value.(*ssa.Builtin); ok && bi.Name() == "copy" {
+					poisonSlice(t.Call.Args[0], nil, t.Pos())
+					continue
+				}
+				if _, ok := t.Call.Value.(*ssa.Builtin); ok {
+					continue
+				}
+				for _, a := range t.Call.Args {
+					if _, ok := a.Type().Underlying().(*types.Slice); ok {
+						poisonSlice(a, nil, t.Pos())
+					}
+				}
+			}
+		}
+	}
+	if unknownDst {
+		// a store through a slice computed inside the loop: every tracked buffer may be written
+		for _, v := range f.env {
+			if s, ok := v.(Slice); ok && !s.Nil {
+				d := s
+				d.Lo = ConstInt(0)
+				d.HiLen = true
+				out = append(out, Write{Dst: d, Val: "written in a loop (unknown destination)", Kind: "poison"})
+			}
+		}
+	}
+	return out
+}
+
+func isParamOrConst(v ssa.Value) bool {
+	switch v.(type) {
+	case *ssa.Parameter, *ssa.Const:
+		return true
+	}
+	return false
 }
 
 type Eval struct {
@@ -614,6 +860,7 @@ type Eval struct {
 	Extern func(e *Eval, callee *ssa.Function, args []Val) (Val, bool)
 	// Inline restricts which module callees are evaluated in place (nil = all).
 	Inline func(callee *ssa.Function) bool
+	nmake  int
 }
 
 type frame struct {
@@ -672,7 +919,8 @@ func (e *Eval) run(fn *ssa.Function, args []Val, depth int) []Ret {
 			break
 		}
 		if w.visits[w.b] >= 1 {
-			out = append(out, Ret{Vals: []Val{Opaque{"loop"}}, Path: strings.Join(w.f.path, " "), Writes: w.f.writes})
+			ws := append(w.f.writes, e.loopSummary(w.f, w.b)...)
+			out = append(out, Ret{Vals: []Val{Opaque{"loop"}}, Path: strings.Join(w.f.path, " "), Writes: ws, Loop: true})
 			continue
 		}
 		vis := map[*ssa.BasicBlock]int{}
@@ -880,6 +1128,9 @@ func (e *Eval) instr(f *frame, v ssa.Value, depth int) Val {
 				if arr, ok := f.locals[s.Local].(Slice); ok {
 					return Ptr{Elem: true, Of: arr, Idx: &idx}
 				}
+				if a, ok := f.locals[s.Local].(Addr); ok {
+					return Ptr{Elem: true, Of: a.From, Idx: &idx}
+				}
 			}
 		}
 		return Opaque{"indexaddr"}
@@ -914,7 +1165,8 @@ func (e *Eval) instr(f *frame, v ssa.Value, depth int) Val {
 		if !ok {
 			ln = UnknownInt("makelen")
 		}
-		return Slice{Src: "make", Fresh: true, Lo: ConstInt(0), Hi: ln}
+		e.nmake++
+		return Slice{Src: fmt.Sprintf("make%d", e.nmake), Fresh: true, Lo: ConstInt(0), Hi: ln}
 	case *ssa.TypeAssert:
 		return Opaque{"typeassert"}
 	case *ssa.Lookup:
@@ -928,6 +1180,9 @@ func (e *Eval) instr(f *frame, v ssa.Value, depth int) Val {
 func (e *Eval) load(f *frame, x Val) Val {
 	p, ok := x.(Ptr)
 	if !ok {
+		if o, isO := x.(Opaque); isO && strings.HasPrefix(o.Why, "global ") {
+			return o // the value of a package-level variable, by name
+		}
 		return Opaque{"load"}
 	}
 	switch {
@@ -974,7 +1229,7 @@ func (e *Eval) store(f *frame, st *ssa.Store) {
 		}
 	case p.Elem:
 		lo := p.Of.Lo.Add(*p.Idx)
-		f.writes = append(f.writes, Write{Dst: Slice{Src: p.Of.Src, Fresh: p.Of.Fresh, Lo: lo, Hi: lo.Add(ConstInt(1))}, Val: Str(v), Width: 1, Pos: st.Pos()})
+		f.writes = append(f.writes, Write{Dst: Slice{Src: p.Of.Src, Fresh: p.Of.Fresh, Lo: lo, Hi: lo.Add(ConstInt(1))}, Val: Str(v), V: v, Kind: "byte", Width: 1, Pos: st.Pos()})
 	}
 }
 
@@ -990,6 +1245,8 @@ func (e *Eval) slice(f *frame, t *ssa.Slice) Val {
 		} else if s.Local != nil {
 			if b, ok := f.locals[s.Local].(Slice); ok {
 				base = b
+			} else if a, ok := f.locals[s.Local].(Addr); ok {
+				base = a.From
 			} else {
 				return Opaque{"slice of local"}
 			}
@@ -1177,7 +1434,7 @@ func (e *Eval) call(f *frame, c *ssa.Call, depth int) Val {
 			return UnknownInt(b.Name())
 		case "copy":
 			if d, ok := args[0].(Slice); ok {
-				f.writes = append(f.writes, Write{Dst: d, Val: "copy " + Str(args[1]), Pos: c.Pos()})
+				f.writes = append(f.writes, Write{Dst: d, Val: "copy " + Str(args[1]), V: args[1], Kind: "copy", Pos: c.Pos()})
 			}
 			return UnknownInt("copied")
 		}
@@ -1207,7 +1464,7 @@ func (e *Eval) call(f *frame, c *ssa.Call, depth int) Val {
 			if !be {
 				tag = "le"
 			}
-			f.writes = append(f.writes, Write{Dst: d, Val: tag + " " + Str(args[len(args)-1]), Width: n, Pos: c.Pos()})
+			f.writes = append(f.writes, Write{Dst: d, Val: tag + " " + Str(args[len(args)-1]), V: args[len(args)-1], Kind: tag, Width: n, Pos: c.Pos()})
 		}
 		return Opaque{"void"}
 	}
@@ -1243,6 +1500,25 @@ func (e *Eval) call(f *frame, c *ssa.Call, depth int) Val {
 			return Addr{From: a.From, Kind: k}
 		}
 		return Opaque{name + "(" + Str(args[0]) + ")"}
+	case "(net/netip.Addr).As4", "(net/netip.Addr).As16", "(net/netip.Addr).AsSlice":
+		var from Slice
+		switch t := args[0].(type) {
+		case Addr:
+			from = t.From
+		case Opaque:
+			from = Slice{Src: strings.TrimPrefix(strings.TrimPrefix(t.Why, "param "), "global "), Lo: ConstInt(0), HiLen: true}
+		default:
+			return Opaque{name + "(" + Str(args[0]) + ")"}
+		}
+		switch {
+		case strings.HasSuffix(name, "As4"):
+			from.Hi, from.HiLen = from.Lo.Add(ConstInt(4)), false
+			return Addr{From: from, Kind: "array"}
+		case strings.HasSuffix(name, "As16"):
+			from.Hi, from.HiLen = from.Lo.Add(ConstInt(16)), false
+			return Addr{From: from, Kind: "array"}
+		}
+		return from
 	case "net/netip.AddrFromSlice":
 		if s, ok := args[0].(Slice); ok {
 			c1 := ConstInt(1)
@@ -1274,8 +1550,27 @@ func (e *Eval) call(f *frame, c *ssa.Call, depth int) Val {
 				same = false
 			}
 		}
-		if first != nil && same {
+		sameWrites := true
+		for i := range rets {
+			if !rets[i].Panic && first != nil && writesStr(rets[i].Writes) != writesStr(first.Writes) {
+				sameWrites = false
+			}
+		}
+		if first != nil && sameWrites {
 			f.writes = append(f.writes, first.Writes...)
+		} else {
+			// paths differ in what they write: every written range becomes unknown
+			for i := range rets {
+				for _, w := range rets[i].Writes {
+					pw := w
+					if pw.Kind != "poison" {
+						pw.Kind, pw.Val = "poison", "conditionally written by "+callee.Name()
+					}
+					f.writes = append(f.writes, pw)
+				}
+			}
+		}
+		if first != nil && same {
 			if len(first.Vals) == 1 {
 				return first.Vals[0]
 			}
@@ -1297,12 +1592,154 @@ func (e *Eval) call(f *frame, c *ssa.Call, depth int) Val {
 			return Opaque{callee.Name() + "(){" + strings.Join(dedup(alts), " / ") + "}"}
 		}
 	}
+	// not evaluated in place: the callee may write through its slice arguments
+	if !pureCallee(name) {
+		for i, a := range args {
+			sl, ok := a.(Slice)
+			if !ok || sl.Nil {
+				continue
+			}
+			off, writes := 0, true
+			if callee != nil && callee.Blocks != nil && i < len(callee.Params) {
+				off, writes = MinWriteOffset(callee, i, 0)
+			}
+			if !writes {
+				continue
+			}
+			d := sl
+			d.Lo = sl.Lo.Add(ConstInt(uint64(off)))
+			f.writes = append(f.writes, Write{Dst: d, Val: "may be written by " + name, Kind: "poison", Pos: c.Pos()})
+		}
+	}
 	if callee != nil && callee.Signature.Results().Len() == 1 {
 		if _, ok := callee.Signature.Results().At(0).Type().Underlying().(*types.Basic); ok {
 			return UnknownInt("call " + name)
 		}
 	}
 	return Opaque{"call " + name}
+}
+
+func writesStr(ws []Write) string {
+	var p []string
+	for _, w := range ws {
+		p = append(p, w.Dst.vstr()+"<-"+w.Kind+" "+w.Val)
+	}
+	return strings.Join(p, ";")
+}
+
+// pureCallee: external functions known not to write through slice arguments.
+func pureCallee(name string) bool {
+	for _, p := range []string{"bytes.", "net/netip.", "(net/netip.", "fmt.", "net.", "(net.", "strings.", "time.", "(time.", "(*sync.", "sync/atomic.", "(encoding/binary.bigEndian).Uint", "(encoding/binary.littleEndian).Uint", "errors."} {
+		if strings.HasPrefix(name, p) {
+			return true
+		}
+	}
+	return false
+}
+
+// MinWriteOffset returns the smallest offset, relative to the start of slice parameter `param`, that fn may
+// write (through the parameter or a re-slice of it, directly or in callees), and whether it writes at all.
+func MinWriteOffset(fn *ssa.Function, param int, depth int) (int, bool) {
+	if fn.Blocks == nil || param >= len(fn.Params) {
+		return 0, true
+	}
+	if depth > 3 {
+		return 0, true
+	}
+	p := fn.Params[param]
+	var derive func(v ssa.Value, d int) (int, bool)
+	derive = func(v ssa.Value, d int) (int, bool) {
+		if d > 8 {
+			return 0, false
+		}
+		switch t := v.(type) {
+		case *ssa.Parameter:
+			return 0, t == p
+		case *ssa.Slice:
+			lo, ok := derive(t.X, d+1)
+			if !ok {
+				return 0, false
+			}
+			if k, isC := t.Low.(*ssa.Const); isC && t.Low != nil {
+				lo += int(k.Int64())
+			}
+			return lo, true
+		case *ssa.ChangeType:
+			return derive(t.X, d+1)
+		case *ssa.Convert:
+			return derive(t.X, d+1)
+		case *ssa.Phi:
+			min, any := 1<<30, false
+			for _, e := range t.Edges {
+				if lo, ok := derive(e, d+1); ok {
+					any = true
+					if lo < min {
+						min = lo
+					}
+				}
+			}
+			return min, any
+		}
+		return 0, false
+	}
+	min, writes := 1<<30, false
+	note := func(off int) {
+		writes = true
+		if off < min {
+			min = off
+		}
+	}
+	for _, b := range fn.Blocks {
+		for _, ins := range b.Instrs {
+			switch t := ins.(type) {
+			case *ssa.Store:
+				if ia, ok := t.Addr.(*ssa.IndexAddr); ok {
+					if lo, ok := derive(ia.X, 0); ok {
+						if k, isC := ia.Index.(*ssa.Const); isC {
+							lo += int(k.Int64())
+						}
+						note(lo)
+					}
+				}
+			case ssa.CallInstruction:
+				cc := t.Common()
+				if bi, ok := cc.Value.(*ssa.Builtin); ok {
+					if bi.Name() == "copy" {
+						if lo, ok := derive(cc.Args[0], 0); ok {
+							note(lo)
+						}
+					}
+					continue
+				}
+				callee := cc.StaticCallee()
+				nm := ""
+				if callee != nil {
+					nm = callee.String()
+				}
+				for i, a := range cc.Args {
+					lo, ok := derive(a, 0)
+					if !ok {
+						continue
+					}
+					switch {
+					case strings.Contains(nm, "encoding/binary") && strings.Contains(nm, ").Put"):
+						note(lo)
+					case pureCallee(nm):
+					case callee != nil && callee.Blocks != nil:
+						if off, w := MinWriteOffset(callee, i, depth+1); w {
+							note(lo + off)
+						}
+					default:
+						note(lo)
+					}
+				}
+			}
+		}
+	}
+	if !writes {
+		return 0, false
+	}
+	return min, true
 }
 
 func dedup(s []string) []string {
